@@ -397,6 +397,9 @@ var c08DiagClasses = []struct {
 	{"call-missing-secret", regexp.MustCompile(`^secret "[^"]*" is required by "[^"]*" reusable workflow`)},
 	{"call-input-type", regexp.MustCompile(`^input "[^"]*" is typed as`)},
 	{"matrix-exclude-unknown-key", regexp.MustCompile(`in "exclude" section does not exist in matrix`)},
+	{"needs-duplicate-entry", regexp.MustCompile(`duplicates in "needs" section`)},
+	{"runner-label-unknown", regexp.MustCompile(`^label "[^"]*" is unknown`)},
+	{"runner-label-conflict", regexp.MustCompile(`^label "[^"]*" conflicts with label`)},
 }
 
 func c08ClassOf(msg string) string {
@@ -752,19 +755,22 @@ var c08RequiredDiagClasses = []string{
 	"undefined-property", "undefined-function", "context-not-allowed", "special-function-not-allowed", "untrusted-input",
 	"needs-undefined-job", "duplicate-step-id", "action-missing-input", "action-undefined-input",
 	"call-undefined-input", "call-missing-input", "call-undefined-secret", "call-missing-secret",
+	"needs-duplicate-entry", "runner-label-unknown", "runner-label-conflict",
 }
 
 func runC08(r *Run) {
-	r.Rule = "seeded generator of workflows (single file, linted from memory) and of projects on disk (local actions, local reusable workflows, a workflow calling itself), in which every name occurrence and its class is known (contexts, built-in/keyword/map properties, functions, step ids, job ids in keys / needs: / needs.x / jobs.x, dispatch and workflow_call inputs, secrets, outputs, matrix row / include / exclude / nested keys, with: keys of popular and local actions, action metadata input/output keys, call-site with:/secrets: keys, keys of JSON literals passed to fromJSON). Bases: 40% generated without injected defects, the others carry injected name-related defects (undefined step / needs / input / secret / matrix key / output, unknown function, context or special function not allowed, untrusted input, missing or undefined action / workflow-call input or secret, duplicate step id, self-needs). Each base is compared with `flips` case variants (all-lower first; then single flip, few, random subset, consistent re-spelling of one name, all-but-one occurrence of one name, all-upper). Oracle: identical multiset of (file, line, col, kind, lower-cased message with quoted-name lists sorted). Non-trivial = distinct flipped input that was compared."
+	r.Rule = "seeded generator of workflows (single file, linted from memory) and of projects on disk (local actions, local reusable workflows, a workflow calling itself), in which every name occurrence and its class is known (contexts, built-in/keyword/map properties, functions, step ids, job ids in keys / needs: / needs.x / jobs.x, dispatch and workflow_call inputs, secrets, outputs, matrix row / include / exclude / nested keys, with: keys of popular and local actions, action metadata input/output keys, call-site with:/secrets: keys, keys of JSON literals passed to fromJSON). Bases: 40% generated without injected defects, the others carry injected name-related defects (undefined step / needs / input / secret / matrix key / output, unknown function, context or special function not allowed, untrusted input, missing or undefined action / workflow-call input or secret, duplicate step id, self-needs). Each base is compared with `flips` case variants (all-lower first; then single flip, few, random subset, consistent re-spelling of one name, all-but-one occurrence of one name, all-upper). Generated bases also carry duplicate needs: entries and runs-on given by ${{ matrix.<row> }} (scalar / sequence element) whose row or include entry holds an unknown or conflicting runner label. Family probe-templates: hand-written probes with <= 6 marked occurrences for which the FULL product of the case classes lower / upper / mixed is compared with the probe as written: duplicate checks over case-insensitive names (same job twice in needs: in flow / block / quoted / non-adjacent / triple form, step ids, action.yml input and output keys, keys of the case-insensitive mappings in two different spellings) and every place where a rule other than the expression checker looks at the text of a ${{ }} placeholder (runner-label resolving runs-on through the matrix in 6 YAML forms x row / include / conflict, if-cond extra characters, credentials password, dynamic shell, matrix values / sections by expression, uses / id / env name / dispatch default / typed fields containing expressions). Oracle: identical multiset of (file, line, col, kind, lower-cased message with quoted-name lists sorted). Non-trivial = distinct flipped input that was compared."
 	r.Assume("letter-case flips of ASCII names keep byte length, so positions of all tokens are unchanged")
 	r.Assume("names generated for one project are unique after lower-casing (one namespace for the whole project), so a flip never creates or removes a case-insensitive duplicate; intended duplicates (duplicate step id) use one spelling in the base")
 	r.Assume("never flipped: keywords true/false/null, string-literal contents other than fromJSON object keys (and, only in the family index-literal, ['name'] index literals), YAML syntax keys, env: keys, event names, shell names, runner labels, action / workflow specs")
 	r.Assume("messages are compared after lower-casing; quoted names inside a message are compared as a multiset because actionlint sorts such lists by the original spelling")
+	r.Assume("outside the compared domain: two matrix row values that are the same ${{ }} text are reported as duplicate values by plain text equality of the scalars (value comparison, not name matching), so spelling a name differently in one of them removes that diagnostic; mapping keys repeated in the SAME spelling (a YAML error instead of actionlint's duplicate-key diagnostic)")
 	r.Assume("projects are linted one workflow file at a time with a fresh Linter (LintFile), which is deterministic; multi-file runs are C02/C10 territory")
 
 	flips := r.Q(4, 8)
 	fams := []*Family{
 		{Name: "fixed-templates", N: len(c08FixedTemplates()), Do: c08FixedCase},
+		{Name: "probe-templates", N: len(c08Probes()), Do: c08ProbeCase},
 		{Name: "single-file", N: r.Q(2400, 80000), Do: func(c *Case) { c08Case(c, c08Cfg{flips: flips}) }},
 		{Name: "project", N: r.Q(700, 20000), Do: func(c *Case) { c08Case(c, c08Cfg{onDisk: true, flips: flips}) }},
 		{Name: "index-literal", N: r.Q(500, 10000), Do: func(c *Case) { c08Case(c, c08Cfg{indexLit: true, onDisk: c.Idx%4 == 0, flips: flips}) }},
@@ -785,6 +791,18 @@ func runC08(r *Run) {
 		r.Inconclusive(fmt.Sprintf("fewer than 10%% of the base inputs carried diagnostics (%d of %d)", r.Counter("bases_with_diagnostics"), bases))
 	}
 	for _, s := range c08RequiredSites {
+		if r.Counter("site:"+s) < 5 {
+			r.Inconclusive(fmt.Sprintf("name class %q was flipped fewer than 5 times (%d)", s, r.Counter("site:"+s)))
+		}
+	}
+	for _, s := range c08ProbeSites() {
+		for _, cl := range c08CaseClasses {
+			if r.Counter("probe:"+s+":"+cl) < 1 {
+				r.Inconclusive(fmt.Sprintf("probe site %q was never spelled in case class %s", s, cl))
+			}
+		}
+	}
+	for _, s := range []string{"needs-entry(dup-first)", "needs-entry(dup-second)", "context-name(runs-on)", "matrix-use(runs-on)", "matrix-row-key(label)"} {
 		if r.Counter("site:"+s) < 5 {
 			r.Inconclusive(fmt.Sprintf("name class %q was flipped fewer than 5 times (%d)", s, r.Counter("site:"+s)))
 		}
